@@ -3,6 +3,8 @@ mod proj;
 mod util;
 mod tables;
 mod c04;
+mod rules;
+mod scan;
 mod c05;
 mod c18;
 
@@ -14,6 +16,7 @@ fn main() {
     match (cmd, id) {
         ("tables", dir) => tables::write(dir),
         ("replay", "C04") => c04::replay(),
+        ("replay", "C03") => scan::replay(),
         ("replay", "C05") => c05::replay(),
         ("replay", "C18") => c18::replay(),
         _ => { eprintln!("usage: asca-conform tables <dir> | replay <id> | record <id> <out>"); std::process::exit(2); }
